@@ -807,12 +807,19 @@ impl Sim {
 
 const POOL: [&str; 6] = ["A", "B", "C", "x", "f", "Util"];
 
+/// legal identifiers of the source language that are reserved words of the output language: the exporter prints every
+/// entity of such a name under a generated name (`texture` -> `texture_0`)
+pub const RES_POOL: [&str; 3] = ["texture", "pass", "technique"];
+
 struct Gen<'a> {
     rng: &'a mut Rng,
     sim: Sim,
     fresh: usize,
     budget: i64,
     hist: &'a mut Hist,
+    /// every namespace-level name declared so far with its entity (namespaces: none): the bases of the names
+    /// `<base>_<k>` — what the exporter would generate for them — that are given to locals, parameters and later entities
+    declared: Vec<(String, Option<usize>)>,
 }
 
 impl<'a> Gen<'a> {
@@ -820,9 +827,39 @@ impl<'a> Gen<'a> {
         if self.rng.chance(1, 7) {
             self.fresh += 1;
             format!("n{}", self.fresh)
+        } else if self.rng.chance(1, 5) {
+            self.rng.pick(&RES_POOL).to_string()
+        } else if !self.declared.is_empty() && self.rng.chance(1, 12) {
+            // spelled like a generated name of something declared before (the exporter has to keep it verbatim and
+            // generate around it)
+            self.generated_like().0
         } else {
             self.rng.pick(&POOL).to_string()
         }
+    }
+    /// `<base>_<k>`, k = 0..2, for a namespace-level name declared so far (else for a pool name)
+    fn generated_like(&mut self) -> (String, Option<usize>) {
+        let k = self.rng.below(3);
+        if self.declared.is_empty() {
+            let b = if self.rng.chance(1, 2) { self.rng.pick(&RES_POOL).to_string() } else { self.rng.pick(&POOL).to_string() };
+            return (format!("{}_{}", b, k), None);
+        }
+        // the most recent declarations twice as often: they are the ones in reach of the body that is generated next
+        let n = self.declared.len();
+        let i = if n > 3 && self.rng.chance(1, 2) { n - 1 - self.rng.below(3) as usize } else { self.rng.below(n as u64) as usize };
+        let (b, e) = self.declared[i].clone();
+        (format!("{}_{}", b, k), e)
+    }
+    /// the name of a local / parameter: 1 in 3 is spelled like the generated name of a declared entity (second component)
+    fn local_name(&mut self) -> (String, Option<usize>) {
+        if self.rng.chance(1, 3) {
+            let (n, e) = self.generated_like();
+            if well_formed(&[Node::Lv(n.clone())]) {
+                self.hist.add("decl:local-spelled-like-a-generated-name");
+                return (n, e);
+            }
+        }
+        (self.name(), None)
     }
     /// a name for which `ok` holds: a few tries from the pool, then a fresh one
     fn name_where(&mut self, ok: impl Fn(&Sim, &str) -> bool) -> String {
@@ -874,12 +911,9 @@ impl<'a> Gen<'a> {
         }
     }
 
-    fn gen_use(&mut self, at_namespace_level: bool) -> Option<Node> {
-        if self.sim.ents.is_empty() {
-            return None;
-        }
-        for _ in 0..6 {
-            let id = self.rng.below(self.sim.ents.len() as u64) as usize;
+    /// a use of entity `id` written with some path that resolves to an entity of its kind from here
+    fn use_of(&mut self, id: usize, at_namespace_level: bool) -> Option<Node> {
+        {
             let k = match self.sim.ents[id].kind {
                 EKind::Gvar | EKind::Local | EKind::Param => UKind::V,
                 EKind::Func => UKind::F,
@@ -894,7 +928,7 @@ impl<'a> Gen<'a> {
                 EKind::EnumVal => UKind::E,
             };
             if at_namespace_level && k != UKind::G {
-                continue;
+                return None;
             }
             if let Some(p) = self.path_for(k, id) {
                 self.hist.add(&format!("use:{}:{}:{}", k.token(), if p.abs { "abs" } else { "rel" }, p.segs.len().min(4)));
@@ -908,6 +942,35 @@ impl<'a> Gen<'a> {
         None
     }
 
+    fn gen_use(&mut self, at_namespace_level: bool) -> Option<Node> {
+        if self.sim.ents.is_empty() {
+            return None;
+        }
+        for _ in 0..6 {
+            let id = self.rng.below(self.sim.ents.len() as u64) as usize;
+            if let Some(u) = self.use_of(id, at_namespace_level) {
+                return Some(u);
+            }
+        }
+        None
+    }
+
+    /// after a local / parameter spelled like the generated name of `ent`: uses of that entity in the scope of the local
+    /// (a type: declaration, cast / enum variable; an enum value through its enum; a function / global: call, assignment)
+    fn uses_after_local(&mut self, ent: Option<usize>, out: &mut Vec<Node>) {
+        let Some(id) = ent else { return };
+        if id >= self.sim.ents.len() {
+            return;
+        }
+        let n = 1 + self.rng.below(2);
+        for _ in 0..n {
+            if let Some(u) = self.use_of(id, false) {
+                self.hist.add(&format!("use:after-local-spelled-like-generated:{}", self.sim.ents[id].kind.name()));
+                out.push(u);
+            }
+        }
+    }
+
     fn gen_body(&mut self, depth: usize) -> Vec<Node> {
         let mut out = Vec::new();
         let n = 1 + self.rng.below(5);
@@ -915,10 +978,15 @@ impl<'a> Gen<'a> {
             self.budget -= 1;
             match self.rng.below(10) {
                 0 | 1 => {
-                    let name = self.name_where(|s, n| s.can_lv(n));
+                    let (mut name, mut ent) = self.local_name();
+                    if !self.sim.can_lv(&name) {
+                        name = self.name_where(|s, n| s.can_lv(n));
+                        ent = None;
+                    }
                     self.sim.decl_lv(&name);
                     self.hist.add("decl:lv");
                     out.push(Node::Lv(name));
+                    self.uses_after_local(ent, &mut out);
                 }
                 2 if depth < 2 => {
                     self.sim.begin_bl();
@@ -948,6 +1016,7 @@ impl<'a> Gen<'a> {
             match self.rng.below(20) {
                 0..=4 if depth < 3 => {
                     let name = self.name_where(|s, n| s.can_ns(n));
+                    self.declared.push((name.clone(), None));
                     self.sim.enter_ns(&name);
                     let items = self.gen_items(depth + 1);
                     self.sim.exit_ns();
@@ -956,21 +1025,27 @@ impl<'a> Gen<'a> {
                 }
                 5..=7 => {
                     let name = self.name_where(|s, n| s.can_gv(n));
+                    self.declared.push((name.clone(), Some(self.sim.ents.len())));
                     self.sim.decl_gv(&name);
                     self.hist.add("decl:gv");
                     out.push(Node::Gv(name));
                 }
                 8..=12 => {
                     let name = self.name_where(|s, n| s.can_fn(n));
-                    let param = if self.rng.chance(1, 2) { "-".to_string() } else { self.name() };
+                    let (param, pent) = if self.rng.chance(1, 2) { ("-".to_string(), None) } else { self.local_name() };
+                    let fid = self.sim.ents.len();
                     self.sim.begin_fn(&name, &param);
-                    let body = self.gen_body(0);
+                    let mut body = Vec::new();
+                    self.uses_after_local(pent, &mut body);
+                    body.extend(self.gen_body(0));
                     self.sim.end_body();
+                    self.declared.push((name.clone(), Some(fid)));
                     self.hist.add("decl:fn");
                     out.push(Node::Fn(name, param, body));
                 }
                 13 | 14 => {
                     let name = self.name_where(|s, n| s.can_st(n));
+                    self.declared.push((name.clone(), Some(self.sim.ents.len())));
                     self.sim.begin_st(&name);
                     let body = self.gen_body(0);
                     self.sim.end_st();
@@ -998,6 +1073,11 @@ impl<'a> Gen<'a> {
                         }
                     }
                     if let Some((name, vals)) = found {
+                        let eid = self.sim.ents.len();
+                        self.declared.push((name.clone(), Some(eid)));
+                        for (j, v) in vals.iter().enumerate() {
+                            self.declared.push((v.clone(), Some(eid + 1 + j)));
+                        }
                         self.sim.decl_en(&name, &vals);
                         self.hist.add("decl:en");
                         out.push(Node::En(name, vals));
@@ -1030,7 +1110,7 @@ impl<'a> Gen<'a> {
 }
 
 pub fn generate(rng: &mut Rng, hist: &mut Hist) -> Vec<Node> {
-    let mut g = Gen { rng, sim: Sim::new(), fresh: 0, budget: 40, hist };
+    let mut g = Gen { rng, sim: Sim::new(), fresh: 0, budget: 40, hist, declared: Vec::new() };
     let mut nodes = g.gen_items(0);
     if g.rng.chance(1, 10) {
         // a last function with one use of a path that is declared somewhere but is not found from here (or nowhere):
@@ -1519,7 +1599,13 @@ fn exported(nodes: &[Node], scan: &Scan) -> Option<Vec<Node>> {
 
 /// the first use of the exported program that the harness's simulation (full-path retry on every enclosing scope) looks
 /// up to something else than the text of the first generation refers to
-fn capture(nodes: &[Node], scan1: &Scan) -> Option<String> {
+///
+/// One case is set apart, in the property's own terms and without the Lean model: the use was printed with a name the
+/// exporter GENERATED for its entity (the printed leaf differs from the source leaf: `texture` -> `texture_0`) and a
+/// local / parameter of the emitted text carries exactly that name.  The exporter picks generated names itself and
+/// names locals afterwards, so this collision is of its own making — it is not the class "a relative path meets a closer
+/// homonym of the source" and gets the tag `generated-name-taken-by-local` (no class key: a violation with its input).
+fn capture(nodes: &[Node], scan1: &Scan, src: &Sim) -> Option<String> {
     let ex = exported(nodes, scan1)?;
     let mut sim2 = Sim::new();
     sim2.run(&ex);
@@ -1527,6 +1613,23 @@ fn capture(nodes: &[Node], scan1: &Scan) -> Option<String> {
         let want = scan1.uses.get(&k)?;
         let got = u.res.as_ref().map(|r| r.show()).unwrap_or_else(|| "nothing".into());
         if *want != got {
+            if let (Some(Res::Loc(lid)), Some(tid)) = (&u.res, want.get(1..).and_then(|d| d.parse::<usize>().ok())) {
+                if !want.starts_with('l') {
+                    if let (Some(ent), Some((_, printed))) = (src.ents.get(tid), scan1.decls.get(&tid)) {
+                        if ent.path.last() != printed.last() {
+                            return Some(format!(
+                                "generated-name-taken-by-local (u{}: `{}` is the name generated for {} `{}` and the {} l{} is printed with that name)",
+                                k,
+                                u.path.text(),
+                                ent.kind.name(),
+                                ent.path.join("::"),
+                                if sim2.ents.get(*lid).map(|e| e.kind == EKind::Param).unwrap_or(false) { "parameter" } else { "local" },
+                                lid
+                            ));
+                        }
+                    }
+                }
+            }
             let by = match &u.res {
                 None => "nothing".to_string(),
                 Some(r) => match r.id() {
@@ -1602,7 +1705,7 @@ pub fn run_descriptor(desc: &str, out: &mut Out, hist: &mut Hist) {
             hist.add("names:use-with-first-qualifier-declared-closer");
         }
     }
-    let cap = || capture(&nodes, &scan1).map(|c| format!(" [names: {}]", c)).unwrap_or_default();
+    let cap = || capture(&nodes, &scan1, &sim).map(|c| format!(" [names: {}]", c)).unwrap_or_default();
     match compile_src(&text1, Tgt::Dx, Mode::NoPipeline) {
         CompileOutcome::Ok(ps2) if ps2.len() == 1 => {
             let text2 = ps2[0].text();
